@@ -358,6 +358,11 @@ nextFileMatch:
 
 	for _, md := range d.repoMetaData {
 		r := md
+		// 🚨 SECURITY: RepoURLs and LineFragments carry repository names and URL
+		// templates. Only add repositories the tenant has access to.
+		if !tenant.HasAccess(ctx, r.TenantID) {
+			continue
+		}
 		addRepo(&res, &r)
 		for _, v := range r.SubRepoMap {
 			addRepo(&res, v)
